@@ -100,7 +100,7 @@ let causality_msg = function
   | CCellWriteRead -> "Concurrent read and write accesses to `UnsafeCell`."
 
 let state_char = function
-  | Runnable true -> 'U' | Runnable false -> 'R' | Blocked -> 'B' | Yielded -> 'Y' | Terminated -> 'T'
+  | Runnable -> 'R' | Blocked -> 'B' | Yielded -> 'Y' | Terminated -> 'T'
 
 let internal s = "internal " ^ cut70 s
 
